@@ -11,6 +11,7 @@ structure St where
   imgs : List (String × Mem) := []
   fixed : Bool := false
   fixedRecv : Bool := false
+  fixedRead : Bool := false
   tbl : DescTable.Table Nat := DescTable.empty
 
 def init : St := {}
@@ -96,6 +97,9 @@ partial def step (st : St) (args : List String) : St × String :=
   | ["variant2", v] =>
     if v == "asis" then ({ st with fixedRecv := false }, "ok")
     else if v == "fixed" then ({ st with fixedRecv := true }, "ok") else (st, "bad-op")
+  | ["variant3", v] =>
+    if v == "asis" then ({ st with fixedRead := false }, "ok")
+    else if v == "fixed" then ({ st with fixedRead := true }, "ok") else (st, "bad-op")
   | ["host", as, es, sin, wall, wres, mono, mres, pre] =>
     match parseHexList as, parseHexList es, parseBytes sin, parseNat wall, parseNat wres, parseNat mono, parseNat mres, parseBytes pre with
     | some a, some e, some s, some w, some wr, some mo, some mr, some p =>
@@ -119,7 +123,7 @@ partial def step (st : St) (args : List String) : St × String :=
         | .error e => (st, errStr e)
         | .ok (_, _, dst) => (st, s!"e=0 a={8 * (slotsAfterInsertAt t dst - DescTable.slots t)}")
       else
-      match call st.fixed st.fixedRecv st.host t m fn a with
+      match call st.fixed st.fixedRecv st.fixedRead st.host t m fn a with
       | some rs => (st, String.intercalate " | " (rs.map resStr))
       | none => (st, "bad-op")
     | _, _, _ => (st, "bad-op")
